@@ -47,6 +47,13 @@ def _lock_helper(conn, path):
             l = locks[h] = fasteners.InterProcessLock(path)
         if op == "acq":
             conn.send(bool(l.acquire(blocking=False)))
+        elif op == "rw":
+            # a plain open + close of the lock file (e.g. Path.read_text / write_text) by this process
+            try:
+                open(path, "a").close()
+                conn.send("rw")
+            except Exception as e:  # noqa
+                conn.send(f"err:{type(e).__name__}")
         else:
             try:
                 if l.acquired:
@@ -69,7 +76,7 @@ def check_locks(maxlen=4):
         p.start()
         procs[name] = (p, a)
     actors = [("A", 1), ("A", 2), ("B", 1)]
-    symbols = [(a, op) for a in actors for op in ("acq", "rel")]
+    symbols = [(a, op) for a in actors for op in ("acq", "rel")] + [(("A", 1), "rw")]
     n, bad = 0, []
     try:
         for length in range(1, maxlen + 1):
@@ -85,7 +92,12 @@ def check_locks(maxlen=4):
                     c = procs[proc][1]
                     c.send((op, h))
                     real.append(c.recv())
-                    if op == "acq":
+                    if op == "rw":
+                        # POSIX record locks: closing ANY descriptor of the file drops the locks the process holds on it
+                        if owner == proc:
+                            owner = None
+                        model.append("rw")
+                    elif op == "acq":
                         if owner is None or owner == proc:
                             owner = proc
                             flags[(proc, h)] = True
